@@ -14,7 +14,7 @@ Line-protocol driver for C15. One request per line (ints only), one response lin
   read         cp..                                    role strings of `smiles(text)` (reaction branch)
   atok         z iso charge pcharge rad prad           `CGRSmiles._format_atom`
   btok         order porder (0 = None)                 `CGRSmiles._format_bond`
-  readrad      ntext cp.. ntbl (len cp.. count)*       role strings + `is_radical` flags after the CXSMILES radical stage of
+  readrad      ignore ntext cp.. ntbl (len cp.. count)* role strings + `is_radical` flags after the CXSMILES radical stage of
                                                        `smiles(text)`; table = atom count of every `.`-piece (real parser)
   mapfix       remap ignore nR nP nA (len m..)*        `postprocess_parsed_reaction`: final atom numbers per role / molecule
   union        k <mol>*                                `reduce(or_, mols)` (`Graph.union(remap=True)`), exact dict order
@@ -106,7 +106,7 @@ def handle (line : String) : String :=
   match words line with
   | "readrad" :: rest =>
     match parseInts? rest with
-    | some xs =>
+    | some (ig :: xs) =>
       match (do let (t, x1) ← takeNats xs
                 match x1 with
                 | k :: x2 => if k < 0 then none else
@@ -114,14 +114,14 @@ def handle (line : String) : String :=
                   some (t, tbl, x3)
                 | [] => none) with
       | some (t, tbl, []) =>
-        match readRxnRad (natomsOf tbl) t with
+        match readRxnRadOpt (ig != 0) (natomsOf tbl) t with
         | .molecule => "mol"
         | .error e => "err " ++ e
         | .roles r a p fr fa fp =>
           "ok R " ++ showStrs r ++ " A " ++ showStrs a ++ " P " ++ showStrs p ++
           " FR " ++ showFlags fr ++ " FA " ++ showFlags fa ++ " FP " ++ showFlags fp
       | _ => "bad readrad"
-    | none => "bad ints"
+    | _ => "bad ints"
   | "union" :: rest =>
     match parseInts? rest with
     | some (k :: xs) =>
